@@ -528,7 +528,8 @@ def lower_repo(repo):
     c4 = constant_setattr(f)
     c5 = thread_result_tests(f) if q in getattr(repo, 'flattened', {}) else False
     c6 = propagate_attribute_aliases(f)
-    c1 = c1 or c5 or bool(c6)
+    c7 = split_parallel_assignments(f)
+    c1 = c1 or c5 or bool(c6) or c7
     if c1 or c2 or c3 or c4:
       done.append('%s: %s' % (q, ' + '.join(x for x, y in (('iteration forms', c1), ('conditional assignments', c2), ('attribute-table loops unrolled', c3),
                                                             ('constant setattr/getattr', c4)) if y)))
@@ -786,3 +787,49 @@ def propagate_attribute_aliases(f):
     for ch in ast.iter_child_nodes(n):
       ch._parent = n
   return sorted(cands)
+
+
+def split_parallel_assignments(f):
+  """a, b = x, y  ->  a = x; b = y   when no left-hand side is read by a later right-hand side (not a swap)."""
+  from mmsa.core import norm
+  node = f.node
+  changed = [False]
+
+  def block(stmts):
+    out = []
+    for st in stmts:
+      if isinstance(st, (ast.FunctionDef, ast.ClassDef, ast.AsyncFunctionDef)):
+        out.append(st)
+        continue
+      for fld in ('body', 'orelse', 'finalbody'):
+        if hasattr(st, fld) and isinstance(getattr(st, fld), list):
+          setattr(st, fld, block(getattr(st, fld)))
+      if isinstance(st, ast.Try):
+        for hd in st.handlers:
+          hd.body = block(hd.body)
+      if isinstance(st, ast.Assign) and len(st.targets) == 1 and isinstance(st.targets[0], (ast.Tuple, ast.List)) \
+          and isinstance(st.value, (ast.Tuple, ast.List)) and len(st.targets[0].elts) == len(st.value.elts) \
+          and not any(isinstance(x, ast.Starred) for x in list(st.targets[0].elts) + list(st.value.elts)):
+        tg, vs = st.targets[0].elts, st.value.elts
+        safe = True
+        for i, t in enumerate(tg):
+          tt = norm(t)
+          root = tt.split('.')[0].split('[')[0]
+          for v in vs[i + 1:]:
+            for x in ast.walk(v):
+              if isinstance(x, (ast.Name, ast.Attribute, ast.Subscript)) and (norm(x) == tt or (isinstance(t, ast.Name) and isinstance(x, ast.Name) and x.id == root)):
+                safe = False
+        if safe:
+          for t, v in zip(tg, vs):
+            out.append(ast.Assign(targets=[t], value=v, lineno=st.lineno, col_offset=st.col_offset))
+          changed[0] = True
+          continue
+      out.append(st)
+    return out
+  node.body = block(node.body)
+  if changed[0]:
+    ast.fix_missing_locations(node)
+    for n in ast.walk(node):
+      for ch in ast.iter_child_nodes(n):
+        ch._parent = n
+  return changed[0]
